@@ -86,6 +86,7 @@ pub fn run(ctx: &Ctx) -> ! {
     let mut ev = Evidence::default();
     let mut rep = Reporter::new(ctx);
     let mut cases = corpus::corpus_a();
+    cases.extend(corpus::corpus_a_param_variants());
     cases.extend(corpus::corpus_b());
     cases.extend(corpus::corpus_c());
     // class (a): zone-explicit by construction = does not call an allowed function; class (b): hand-written probes
